@@ -160,7 +160,7 @@ pub fn c15(ctx: &Ctx) -> Frag {
         }
     };
     frag.require(&[">= 2 threads whose first operation is the same dispatched routine", ">= 2 threads in one-shot memmem::find on short haystacks with needles of different lengths", "operations repeated >= 400 times per thread", ">= 2 threads whose first operation uses the shared, so far unused finder"]);
-    let cases = ctx.n(300, 20_000) as u32;
+    let cases = ctx.n(300, 6_000) as u32;
     let max_threads = if ctx.thorough { 32 } else { 16 };
     let dir = std::env::temp_dir().join(format!("mvthreads-{}-{}", std::process::id(), ctx.shard));
     std::fs::create_dir_all(&dir).ok();
